@@ -292,3 +292,163 @@ Qed.
 Theorem stream_slice_agree_parts : forall parts,
   read_parts read_chunk_slice parts = read_parts read_chunk_stream parts.
 Proof. intros parts. apply read_parts_ext. exact read_chunk_slice_eq. Qed.
+
+(* ================================================================================================= *)
+(* 10. read . write = id at the raw-entry level                                                       *)
+(* ================================================================================================= *)
+Notation rds := read_chunk_stream.
+
+Definition is_end (c : chunk) : bool := ty_is c FEND || ty_is c SEND.
+Definition is_term (c : chunk) : bool := ty_is c FEND || ty_is c SEND || ty_is c ANXT || ty_is c AEND.
+
+(* a raw entry as the reader delivers it: some chunks, none of them a terminator or an archive
+   marker, closed by FEND or SEND *)
+Definition wf_entry (cs : list chunk) : Prop :=
+  exists body last, cs = body ++ [last] /\ is_end last = true /\
+                    Forall wf_chunk cs /\ Forall (fun c => is_term c = false) body.
+
+Lemma ser_chunks_nil : ser_chunks [] = [].
+Proof. reflexivity. Qed.
+Lemma ser_chunks_cons c cs : ser_chunks (c :: cs) = ser_chunk c ++ ser_chunks cs.
+Proof. reflexivity. Qed.
+Lemma ser_chunks_app a b : ser_chunks (a ++ b) = ser_chunks a ++ ser_chunks b.
+Proof. unfold ser_chunks. rewrite map_app, concat_app. reflexivity. Qed.
+Lemma ser_chunks_snoc a c : ser_chunks (a ++ [c]) = ser_chunks a ++ ser_chunk c.
+Proof. rewrite ser_chunks_app, ser_chunks_cons, ser_chunks_nil, app_nil_r. reflexivity. Qed.
+
+Lemma ser_chunk_length_ge c : (8 <= length (ser_chunk c))%nat.
+Proof. unfold ser_chunk. rewrite !app_length, !be32_length. lia. Qed.
+
+Lemma is_term_false c : is_term c = false ->
+  (ty_is c FEND || ty_is c SEND) = false /\ ty_is c ANXT = false /\ ty_is c AEND = false.
+Proof. unfold is_term. rewrite !orb_false_iff. intros [[[H1 H2] H3] H4]. rewrite H1, H2. auto. Qed.
+
+Lemma wf_entry_inv e : wf_entry e -> exists body last, e = body ++ [last] /\ is_end last = true /\
+  Forall wf_chunk body /\ wf_chunk last /\ Forall (fun c => is_term c = false) body.
+Proof.
+  intros (body & last & -> & He & Hw & Hb). exists body, last.
+  apply Forall_app in Hw. destruct Hw as [Hw1 Hw2]. inversion Hw2; subst. auto 6.
+Qed.
+
+(* the item loop over one complete, well-formed entry *)
+Lemma good_item last rest : wf_chunk last -> is_end last = true ->
+  forall body fuel acc nxt, Forall wf_chunk body -> Forall (fun c => is_term c = false) body ->
+  (length body < fuel)%nat ->
+  next_item_loop rds fuel (ser_chunks body ++ ser_chunk last ++ rest) acc nxt =
+  Ok (Some (acc ++ body ++ [last]), [], nxt, rest).
+Proof.
+  intros Hl He. induction body as [|c body IH]; intros fuel acc nxt Hw Hn Hf; (destruct fuel as [|fuel]; [cbn [length] in Hf; lia|]).
+  - cbn [next_item_loop]. rewrite ser_chunks_nil. cbn [app]. rewrite read_chunk_ser by exact Hl. cbn [bind].
+    unfold is_end in He. rewrite He. reflexivity.
+  - inversion Hw as [|? ? Hc Hw']; subst. inversion Hn as [|? ? Hc' Hn']; subst.
+    cbn [next_item_loop]. rewrite ser_chunks_cons, <- app_assoc. rewrite read_chunk_ser by exact Hc. cbn [bind].
+    destruct (is_term_false c Hc') as (-> & -> & ->).
+    rewrite IH by (try assumption; cbn [length] in Hf; lia). rewrite <- app_assoc. reflexivity.
+Qed.
+
+Lemma good_raw_item e rest s : wf_entry e -> r_rest s = ser_chunks e ++ rest -> r_buf s = [] ->
+  next_raw_item rds s = Ok (Some e, {| r_rest := rest; r_buf := []; r_next := r_next s; r_hdr := r_hdr s |}).
+Proof.
+  intros He Hr Hb. apply wf_entry_inv in He. destruct He as (body & last & -> & He & Hw & Hl & Hn).
+  unfold next_raw_item. rewrite Hr, Hb.
+  rewrite (next_item_loop_fuel rds read_chunk_shorter read_chunk_no_panic _ (S (length (ser_chunks (body ++ [last]) ++ rest) + length body)))
+    by lia.
+  rewrite ser_chunks_snoc, <- app_assoc. rewrite (good_item last rest Hl He) by (try assumption; lia).
+  cbn [bind app]. reflexivity.
+Qed.
+
+Lemma finalize_eq : finalize = ser_chunk (mk AEND []) ++ [].
+Proof. unfold finalize. rewrite app_nil_r. reflexivity. Qed.
+
+Lemma wf_chunk_aend : wf_chunk (mk AEND []).
+Proof. split; [reflexivity|vm_compute; reflexivity]. Qed.
+
+Lemma end_raw_item s : r_rest s = finalize -> r_buf s = [] ->
+  next_raw_item rds s = Ok (None, {| r_rest := []; r_buf := []; r_next := r_next s; r_hdr := r_hdr s |}).
+Proof.
+  intros Hr Hb. unfold next_raw_item. rewrite Hr, Hb. cbn [next_item_loop].
+  rewrite finalize_eq. rewrite read_chunk_ser by exact wf_chunk_aend. cbn [bind]. reflexivity.
+Qed.
+
+Definition ser_entries (es : list (list chunk)) : bytes := concat (map ser_chunks es).
+
+Lemma ser_entries_cons e es : ser_entries (e :: es) = ser_chunks e ++ ser_entries es.
+Proof. reflexivity. Qed.
+
+Lemma add_chunks_fst e : fst (add_chunks e) = ser_chunks e.
+Proof. reflexivity. Qed.
+
+Lemma write_raw_archive_eq num es : write_raw_archive num es = write_header num ++ ser_entries es ++ finalize.
+Proof. reflexivity. Qed.
+
+Lemma good_loop : forall es fuel s, Forall wf_entry es -> r_rest s = ser_entries es ++ finalize -> r_buf s = [] ->
+  (length es < fuel)%nat ->
+  raw_entries_loop rds fuel s = (es, FinOk, {| r_rest := []; r_buf := []; r_next := r_next s; r_hdr := r_hdr s |}).
+Proof.
+  induction es as [|e es IH]; intros fuel s Hw Hr Hb Hf; (destruct fuel as [|fuel]; [cbn [length] in Hf; lia|]);
+    cbn [raw_entries_loop].
+  - rewrite end_raw_item by assumption. reflexivity.
+  - inversion Hw as [|? ? He Hw']; subst. rewrite ser_entries_cons, <- app_assoc in Hr.
+    rewrite (good_raw_item e _ s He Hr Hb).
+    rewrite IH by (try assumption; try reflexivity; cbn [length] in Hf; lia). reflexivity.
+Qed.
+
+Definition hdr_chunk (num : N) : chunk := mk AHED (ahed_to_bytes {| a_major := 0; a_minor := 0; a_number := num |}).
+
+Lemma wf_chunk_hdr num : wf_chunk (hdr_chunk num).
+Proof. split; [reflexivity|]. unfold hdr_chunk, ahed_to_bytes, len. cbn [mk cdata]. rewrite app_length, be32_length. cbn. lia. Qed.
+
+Lemma write_header_eq num : write_header num = sig ++ ser_chunk (hdr_chunk num).
+Proof. reflexivity. Qed.
+
+Lemma write_header_length num : length (write_header num) = 28%nat.
+Proof.
+  rewrite write_header_eq, app_length, ser_chunk_length by reflexivity.
+  unfold hdr_chunk, ahed_to_bytes. cbn [mk cdata]. rewrite app_length, be32_length. reflexivity.
+Qed.
+
+Lemma open_written num buf rest : num < 2 ^ 32 ->
+  open_archive rds buf (write_header num ++ rest) =
+  Ok {| r_rest := rest; r_buf := buf; r_next := false; r_hdr := {| a_major := 0; a_minor := 0; a_number := num |} |}.
+Proof.
+  intros Hn. unfold open_archive, read_header. rewrite write_header_eq, <- app_assoc, read_sig_app. cbn [bind].
+  rewrite read_chunk_ser by apply wf_chunk_hdr. cbn [bind].
+  change (ty_is (hdr_chunk num) AHED) with true. cbn [negb].
+  unfold hdr_chunk. cbn [mk cdata]. rewrite ahed_inv by (unfold wf_ahed; cbn; repeat split; lia || exact Hn).
+  reflexivity.
+Qed.
+
+Lemma suffix_fuel {A} (a b : list A) k : (length b < S (length (a ++ b)) + k)%nat.
+Proof. rewrite app_length. lia. Qed.
+
+(* the prefix lemma: reading what the writer wrote gives the entries back and ends at AEND *)
+Theorem read_written num es : num < 2 ^ 32 -> Forall wf_entry es ->
+  raw_entries rds (write_raw_archive num es) =
+  Ok (es, FinOk, {| r_rest := []; r_buf := []; r_next := false;
+                    r_hdr := {| a_major := 0; a_minor := 0; a_number := num |} |}).
+Proof.
+  intros Hn Hw. unfold raw_entries. rewrite write_raw_archive_eq at 1. rewrite open_written by exact Hn. cbn [bind].
+  rewrite (raw_entries_loop_fuel rds read_chunk_shorter read_chunk_no_panic _
+             (S (length (write_raw_archive num es)) + length es)).
+  - rewrite (good_loop es) by (try assumption; try reflexivity; lia). reflexivity.
+  - cbn [r_rest]. rewrite write_raw_archive_eq, !app_length. lia.
+  - cbn [r_rest]. rewrite write_raw_archive_eq, !app_length. lia.
+Qed.
+
+Corollary read_written_state num es : num < 2 ^ 32 -> Forall wf_entry es ->
+  exists st, raw_entries rds (write_raw_archive num es) = Ok (es, FinOk, st) /\
+             r_rest st = [] /\ r_buf st = [] /\ r_next st = false.
+Proof. intros Hn Hw. eexists. split; [apply read_written; assumption|]. repeat split. Qed.
+
+(* pass-through copy reproduces the archive byte for byte *)
+Corollary raw_copy_exact num es : num < 2 ^ 32 -> Forall wf_entry es ->
+  exists got st, raw_entries rds (write_raw_archive num es) = Ok (got, FinOk, st) /\
+                 write_raw_archive num got = write_raw_archive num es.
+Proof. intros Hn Hw. eexists _, _. split; [apply read_written; assumption|reflexivity]. Qed.
+
+(* and for the slice reader *)
+Corollary read_written_slice num es : num < 2 ^ 32 -> Forall wf_entry es ->
+  raw_entries read_chunk_slice (write_raw_archive num es) =
+  Ok (es, FinOk, {| r_rest := []; r_buf := []; r_next := false;
+                    r_hdr := {| a_major := 0; a_minor := 0; a_number := num |} |}).
+Proof. intros Hn Hw. rewrite (proj1 (stream_slice_agree _)). apply read_written; assumption. Qed.
